@@ -332,15 +332,22 @@ class ULPIRxEventDecoder(Elaboratable):
             self.rx_stop   .eq(0)
         ]
 
+        # A receive ends implicitly when the PHY de-asserts DIR, even if the last RxCmd had RxActive
+        # set; track that, so an RxCmd that starts the next receive is still seen as a 0 -> 1 change.
+        receive_ongoing = Signal()
+        with m.If(~self.ulpi.dir.i):
+            m.d.usb += receive_ongoing.eq(0)
+
         # Sample the DATA lines whenever these conditions are met.
         with m.If(receiving & ~self.ulpi.nxt.i & ~self.register_operation_in_progress):
             m.d.usb += self.last_rx_command.eq(self.ulpi.data.i)
 
             # If RxActive has just changed, strobe the start or stop signals,
             rx_active = self.ulpi.data.i[4]
-            with m.If(~self.rx_active & rx_active):
+            m.d.usb += receive_ongoing.eq(rx_active)
+            with m.If(~receive_ongoing & rx_active):
                 m.d.usb += self.rx_start.eq(1)
-            with m.If(self.rx_active & ~rx_active):
+            with m.If(receive_ongoing & ~rx_active):
                 m.d.usb += self.rx_stop.eq(1)
 
 
